@@ -555,7 +555,7 @@ func init() {
 	tb := []string{"neo-go v0.107.0 VM, ledger and native contracts are the trusted base", "contracts are compiled at check time from /repo/contracts", "time is virtual: block timestamps and the timestamp of read-only invocations are chosen by the harness"}
 	runner.Register(&runner.Check{
 		ID: "C10", Level: "exploration",
-		Rule:        "PRNG histories of register / registerTLD / transfer (other, self, contract) / renew (1..10, 0, 11, default overload) / setAdmin over 10 names of level 2-4 under a long-lived and a short-lived TLD, 3 users and a contract owner, the clock stepped by seconds and onto the instants exp-1 / exp / exp+1 of live names and TLDs; the shared NNS reference model predicts outcome and notifications; after every operation totalSupply, raw sum of balances, balanceOf, tokensOf, tokens and isAvailable / ownerOf / properties of every pool name (also at the three boundary instants) are compared. distinct = (method, signers, reason, outcome).",
+		Rule:        "PRNG histories of register / registerTLD / transfer (other, self, contract) / renew (1..10, 0, 11, default overload) / setAdmin over 10 names of level 2-4 under a long-lived and a short-lived TLD, 3 users and a contract owner, the clock stepped by seconds and onto the instants exp-1 / exp / exp+1 of live names and TLDs; the shared NNS reference model predicts outcome and notifications; after every operation totalSupply, raw sum of balances, balanceOf, tokensOf, tokens and isAvailable / ownerOf / properties of every pool name (also at the three boundary instants) are compared. distinct = (method, signers, reason, outcome). Every other history starts with a chain under the short-lived TLD whose closest parents outlive the names below them, read at the TLD's expiry.",
 		Assumptions: append(tb, "isAvailable under an expired or missing parent chain is logged, not judged"),
 		Batches:     tier(192, 2048), Helpers: []string{"holder", "registrar"}, Chunk: 8,
 		Floors: []string{"parent-zone-record-named-like-a-free-name", "bought-through-a-re-entering-contract", "register:ok", "register:false", "takeover-of-expired-name", "transfer:ok", "transfer:false", "renew:ok", "renew:fail", "isAvailable@exp-1", "isAvailable@exp", "isAvailable@exp+1", "ownerOf-answers@exp-1", "ownerOf-refuses-under-expired-parent", "parent-tld-boundary", "setAdmin:ok"},
@@ -563,7 +563,7 @@ func init() {
 	})
 	runner.Register(&runner.Check{
 		ID: "C11", Level: "exploration",
-		Rule:        "PRNG histories with evolving ownership (transfers, admin changes, expiry and re-registration by somebody else); every step draws a mutating NNS method, a target name and a role {owner, admin, former owner, former admin, parent owner, parent admin, stranger, committee majority, Alphabet (differs from the majority for 3 and 7 keys), single member, nobody}; arguments are valid so that authorisation alone decides; the model computes who may perform the call now and the call must take effect or be inert (no storage diff, no notification) accordingly. distinct = (method, signers, reason, outcome).",
+		Rule:        "PRNG histories with evolving ownership (transfers, admin changes, expiry and re-registration by somebody else); every step draws a mutating NNS method, a target name and a role {owner, admin, former owner, former admin, parent owner, parent admin, stranger, committee majority, Alphabet (differs from the majority for 3 and 7 keys), single member, nobody}; arguments are valid so that authorisation alone decides; the model computes who may perform the call now and the call must take effect or be inert (no storage diff, no notification) accordingly. distinct = (method, signers, reason, outcome). One call in eight is signed by the same keys with scopes that do not reach the call (None, restricted to another contract), the first of them standing as the transaction's sender: nobody witnesses then.",
 		Assumptions: tb,
 		Batches:     tier(192, 2048), Helpers: []string{"holder", "registrar"}, Chunk: 8,
 		Floors: []string{"addRecord:accepted-by-owner", "addRecord:accepted-by-admin", "addRecord:refused-by-former-owner", "addRecord:refused-by-former-admin", "addRecord:refused-by-stranger", "addRecord:refused-by-parent-owner",
@@ -574,7 +574,7 @@ func init() {
 	})
 	runner.Register(&runner.Check{
 		ID: "C12", Level: "exploration",
-		Rule:        "PRNG sequences of addRecord / setRecord / deleteRecords / updateSOA over 7 names (tokens, registered and unregistered sub-names, a name two levels below its token), types {A, AAAA, CNAME, TXT, SOA, 0, 255}, CNAME graphs of depth 0..4 with self-loops and cycles, 17 adds of one type, missing record ids, registrations of enclosing names interleaved, clock jumps onto token expiry; after every operation getRecords (ordered), getAllRecords (set), resolve with and without trailing dot for every pool name and type, SOA serials and the conflicting-record rule are compared with the model. distinct = (method, signers, reason, outcome).",
+		Rule:        "PRNG sequences of addRecord / setRecord / deleteRecords / updateSOA over 7 names (tokens, registered and unregistered sub-names, a name two levels below its token), types {A, AAAA, CNAME, TXT, SOA, 0, 255}, CNAME graphs of depth 0..4 with self-loops and cycles, 17 adds of one type, missing record ids, registrations of enclosing names interleaved, clock jumps onto token expiry; after every operation getRecords (ordered), getAllRecords (set), resolve with and without trailing dot for every pool name and type, SOA serials and the conflicting-record rule are compared with the model. distinct = (method, signers, reason, outcome). Alias targets also include a registered TLD, an unknown single label and a name nobody registered; the model follows them.",
 		Assumptions: append(tb, "resolve over exactly three CNAME links and getRecords for a name with an unregistered intermediate parent are logged, not judged"),
 		Batches:     tier(64, 768), Helpers: []string{"holder"}, Chunk: 4,
 		Floors: []string{"clock-at-sub-name-token-expiry-under-a-live-parent", "addRecord:ok", "addRecord:fail", "setRecord:ok", "setRecord:fail", "deleteRecords:ok", "deleteRecords:fail", "resolve-ok-links0", "resolve-ok-links1", "resolve-ok-links2", "resolve-refuses-long-chain-or-cycle", "resolve-trailing-dot", "conflicting-record-blocks-registration", "records-unreachable", "clock-at-token-expiry"},
@@ -582,7 +582,7 @@ func init() {
 	})
 	runner.Register(&runner.Check{
 		ID: "C18", Level: "exploration",
-		Rule:        "Names: every string of length <= 5 (quick) / <= 6 (thorough) over the reduced alphabet {a z 0 9 - . A _ + space} plus boundary mutations (1/2/3/16/17/63/64/255/256 bytes) and random label mixes, each classified through isAvailable, register and registerTLD test invocations (refused = one of the two syntax faults) against an independent predicate written from the statement. Record data: all single-octet / single-group edits of valid bases, every '::' position and width, fixed shape lists and grammar-biased PRNG strings, classified through addRecord against a sandwich MUST_ACCEPT <= accepted <= MAY_ACCEPT built on net/netip. A sample of refused inputs is submitted in real blocks and must leave an empty storage diff. distinct = (category, length/label/mutation class, verdict).",
+		Rule:        "Names: every string of length <= 5 (quick) / <= 6 (thorough) over the reduced alphabet {a z 0 9 - . A _ + space} plus boundary mutations (1/2/3/16/17/63/64/255/256 bytes) and random label mixes, each classified through isAvailable, register and registerTLD test invocations (refused = one of the two syntax faults) against an independent predicate written from the statement. Record data: all single-octet / single-group edits of valid bases, every '::' position and width, fixed shape lists and grammar-biased PRNG strings, classified through addRecord against a sandwich MUST_ACCEPT <= accepted <= MAY_ACCEPT built on net/netip. A sample of refused inputs is submitted in real blocks and must leave an empty storage diff. distinct = (category, length/label/mutation class, verdict). Every lower-case textual IPv6 form is additionally compared with the same address written out in full (eight groups of four digits): the two must fare alike.",
 		Assumptions: append(tb, "MAY_ACCEPT for A = canonical dotted quad outside 0/8, 10/8, 127/8, 169.254/16, 172.16/12, 192.168/16, 224/3; MUST_ACCEPT additionally excludes every IANA special-purpose block and host octets 0/255; AAAA: MAY = any textual IPv6 in 2000::/3, MUST = forms without embedded IPv4 outside 2002::/16, 3ffe::/16, 2001::/23, 2001:db8::/32"),
 		Batches:     c18Batches, Helpers: []string{"holder"}, Chunk: 1,
 		Floors: []string{"exhaustive-name-chunk", "name-length-boundaries", "txt-and-cname-boundaries", "v4-mutation-classes", "v6-mutation-classes", "type1-accepted", "type1-refused", "type28-accepted", "type28-refused", "type5-accepted", "type5-refused", "type16-accepted", "type16-refused", "refusal-transaction-inert"},
